@@ -13,6 +13,7 @@ CONSTANTS MemberArgs,    \* member arguments for SetMember (token keys, valid UT
           NewLists,      \* argument lists for New
           DelKeys,       \* keys for DeleteMember
           Hdrs,          \* headers for Parse (grammatical, within limits)
+          Ops,           \* enabled actions (names below without the leading A)
           MaxSteps
 
 VARIABLES bags,   \* sequence of baggage values; handle = index; bags[1] is the zero Baggage
@@ -23,20 +24,22 @@ vars == <<bags, ctxs, steps, act>>
 Init == /\ bags = << <<>> >> /\ ctxs = << <<>> >> /\ steps = 0 /\ act = [op |-> "Init"]
 
 Do(a) == LET r == Eff(bags, ctxs, a) IN bags' = r.bags /\ ctxs' = r.ctxs /\ act' = a
-Accepted(l) == NewVerdict(AsMembers(l), [i \in 1..Len(l) |-> MemberLen(ToMember(l[i]))]).out = "accept"
+Accepted(l) == (\A i \in 1..Len(l) : MemberArgOK(l[i]))
+               /\ NewVerdict(AsMembers(l), [i \in 1..Len(l) |-> WireLen(ToMember(l[i]))]).out = "accept"
 
 Tick == steps < MaxSteps /\ steps' = steps + 1
-ANew == Tick /\ \E l \in NewLists : Accepted(l) /\ Do([op |-> "New", args |-> l])
-ASetMember == Tick /\ \E h \in 1..Len(bags), a \in MemberArgs : Do([op |-> "SetMember", h |-> h, arg |-> a])
-ASetZero == Tick /\ \E h \in 1..Len(bags) : Do([op |-> "SetZero", h |-> h])
-ADelete == Tick /\ \E h \in 1..Len(bags), k \in DelKeys : Do([op |-> "DeleteMember", h |-> h, k |-> k])
-AToCtx == Tick /\ \E h \in 1..Len(bags), c \in 1..Len(ctxs) : Do([op |-> "ToCtx", h |-> h, c |-> c])
-AScribble == Tick /\ \E h \in 1..Len(bags) : Do([op |-> "Scribble", h |-> h])
-AParse == Tick /\ \E hd \in Hdrs : ParseHeader(hd).out = "accept" /\ Do([op |-> "Parse", hd |-> hd])
-AFromCtx == Tick /\ \E c \in 1..Len(ctxs) : Do([op |-> "FromCtx", c |-> c])
-AClearCtx == Tick /\ \E c \in 1..Len(ctxs) : Do([op |-> "ClearCtx", c |-> c])
-AChild == Tick /\ \E c \in 1..Len(ctxs) : Do([op |-> "Child", c |-> c])
-APropagate == Tick /\ \E c \in 1..Len(ctxs), p \in 1..Len(ctxs) : Do([op |-> "Propagate", c |-> c, p |-> p])
+On(name) == name \in Ops
+ANew == On("New") /\ Tick /\ \E l \in NewLists : Accepted(l) /\ Do([op |-> "New", args |-> l])
+ASetMember == On("SetMember") /\ Tick /\ \E h \in 1..Len(bags), a \in MemberArgs : Do([op |-> "SetMember", h |-> h, arg |-> a])
+ASetZero == On("SetZero") /\ Tick /\ \E h \in 1..Len(bags) : Do([op |-> "SetZero", h |-> h])
+ADelete == On("DeleteMember") /\ Tick /\ \E h \in 1..Len(bags), k \in DelKeys : Do([op |-> "DeleteMember", h |-> h, k |-> k])
+AToCtx == On("ToCtx") /\ Tick /\ \E h \in 1..Len(bags), c \in 1..Len(ctxs) : Do([op |-> "ToCtx", h |-> h, c |-> c])
+AScribble == On("Scribble") /\ Tick /\ \E h \in 1..Len(bags) : Do([op |-> "Scribble", h |-> h])
+AParse == On("Parse") /\ Tick /\ \E hd \in Hdrs : ParseHeader(hd).out = "accept" /\ Do([op |-> "Parse", hd |-> hd])
+AFromCtx == On("FromCtx") /\ Tick /\ \E c \in 1..Len(ctxs) : Do([op |-> "FromCtx", c |-> c])
+AClearCtx == On("ClearCtx") /\ Tick /\ \E c \in 1..Len(ctxs) : Do([op |-> "ClearCtx", c |-> c])
+AChild == On("Child") /\ Tick /\ \E c \in 1..Len(ctxs) : Do([op |-> "Child", c |-> c])
+APropagate == On("Propagate") /\ Tick /\ \E c \in 1..Len(ctxs), p \in 1..Len(ctxs) : Do([op |-> "Propagate", c |-> c, p |-> p])
 Next == ANew \/ ASetMember \/ ASetZero \/ ADelete \/ AToCtx \/ AScribble \/ AParse \/ AFromCtx \/ AClearCtx
         \/ AChild \/ APropagate
 Spec == Init /\ [][Next]_vars
@@ -52,6 +55,16 @@ Immutable == [][/\ \A h \in 1..Len(bags) : bags'[h] = bags[h]
 (* every value ever held is a well-formed baggage that survives the header round trip *)
 Inv == /\ \A h \in 1..Len(bags) : /\ \A i, j \in 1..Len(bags[h]) : bags[h][i].k = bags[h][j].k => i = j
                                   /\ BValidUtf8(bags[h])
-                                  /\ (Fits(bags[h]) => LET r == ParseHeader(Serialize(bags[h])) IN
-                                                        r.out = "accept" /\ BMatch(r.b, bags[h]))
+                                  /\ (Fits(TokenPart(bags[h])) => LET r == ParseHeader(Serialize(TokenPart(bags[h]))) IN
+                                                        r.out = "accept" /\ BMatch(r.b, TokenPart(bags[h])))
+(* documented semantics, for EVERY key the constructors accept (token or not): SetMember returns a copy *)
+(* with the member included, an existing member for the key is overwritten; DeleteMember removes it     *)
+SetHolds == [][(act'.op = "SetMember" /\ MemberArgOK(act'.arg)) =>
+                 LET nb == bags'[Len(bags')]  m == ToMember(act'.arg) IN
+                 /\ \E i \in 1..Len(nb) : nb[i] = m
+                 /\ Without(nb, m.k) = Without(bags[act'.h], m.k)]_vars
+DeleteHolds == [][act'.op = "DeleteMember" =>
+                    LET nb == bags'[Len(bags')] IN
+                    /\ \A i \in 1..Len(nb) : nb[i].k # act'.k
+                    /\ nb = Without(bags[act'.h], act'.k)]_vars
 =============================================================================
